@@ -35,7 +35,9 @@ class LogDifferenceRateTransform(Transform):
         raise NotImplementedError
 
     def log_abs_det_jacobian(self, x, y) -> torch.Tensor:
-        return -y.sum(-1)
+        # dy_i/dr_j = ([j = child(i)] - [j = parent(i)]) / r_j: a unit triangular
+        # matrix times diag(1/r)
+        return -x.log().sum(-1)
 
 
 @register_class
